@@ -1,39 +1,26 @@
 import NixModel.Store.Step
 
 /-!
-# C04 — graph-level facts about `deleteAll`, `delLink`, `addLink`, `setAttr`
+# C04 — graph-level facts about `deleteObjs` (`delete_all` by object), `delLink`, `addLink`, `setAttr`
 
 Everything here is about an *arbitrary* graph (no well-formedness assumed): `updNode` and
-`deleteAll` rewrite every stored node with a matching key in the same way, and `node?` reads the
+`deleteObjs` rewrite every stored node with a matching key in the same way, and `node?` reads the
 first one, so the lemmas hold even for graphs with repeated keys.
 -/
 namespace Nix.Store.C04
 open Nix.Store Nix.Store.Graph
 
-/-- the node `k` carries an `entity_id` that is in `ids` — what `delete_all(ids)` tests on every
-child of every group -/
-def doomed (g : Graph) (ids : List String) (k : Nat) : Bool :=
-  match g.entityId k with
-  | some i => ids.contains i
-  | none => false
+/-- the node `k` is one of the objects handed to `delete_all(objs)` — what the visitor tests on every
+child of every group (`child.h5obj in targets`) -/
+def doomed (ks : List Nat) (k : Nat) : Bool := ks.contains k
 
-/-- the filter `deleteAll` applies to every link list, written with `doomed` -/
-def keepLink (g : Graph) (ids : List String) (l : String × Nat) : Bool := !doomed g ids l.2
+/-- the filter `deleteObjs` applies to every link list, written with `doomed` -/
+def keepLink (ks : List Nat) (l : String × Nat) : Bool := !doomed ks l.2
 
-theorem deleteAll_eq (g : Graph) (ids : List String) :
-    g.deleteAll ids =
+theorem deleteObjs_eq (g : Graph) (ks : List Nat) :
+    g.deleteObjs ks =
       { g with nodes := g.nodes.map fun kn =>
-          (kn.1, { kn.2 with links := kn.2.links.filter (keepLink g ids) }) } := by
-  unfold Graph.deleteAll
-  simp only
-  congr 1
-  apply List.map_congr_left
-  intro kn _
-  congr 2
-  apply List.filter_congr
-  intro l _
-  unfold keepLink doomed
-  cases g.entityId l.2 <;> simp
+          (kn.1, { kn.2 with links := kn.2.links.filter (keepLink ks) }) } := rfl
 
 /-! ## `node?` after a key-preserving rewrite of all nodes -/
 
@@ -46,13 +33,13 @@ theorem find_key_map (ns : List (Nat × Node)) (h : Nat × Node → Nat × Node)
     simp only [List.map_cons, List.find?_cons, hk]
     cases (a.1 == k) <;> simp [ih]
 
-theorem deleteAll_node? (g : Graph) (ids : List String) (k : Nat) :
-    (g.deleteAll ids).node? k =
-      (g.node? k).map fun n => { n with links := n.links.filter (keepLink g ids) } := by
-  rw [deleteAll_eq]
+theorem deleteObjs_node? (g : Graph) (ks : List Nat) (k : Nat) :
+    (g.deleteObjs ks).node? k =
+      (g.node? k).map fun n => { n with links := n.links.filter (keepLink ks) } := by
+  rw [deleteObjs_eq]
   unfold Graph.node?
   have := find_key_map g.nodes
-    (fun kn => (kn.1, { kn.2 with links := kn.2.links.filter (keepLink g ids) })) (fun _ => rfl) k
+    (fun kn => (kn.1, { kn.2 with links := kn.2.links.filter (keepLink ks) })) (fun _ => rfl) k
   simp only at this ⊢
   rw [this]
   cases g.nodes.find? (fun kn => kn.1 == k) <;> rfl
@@ -83,68 +70,63 @@ theorem updNode_node? (g : Graph) (p : Nat) (f : Node → Node) (k : Nat) :
       have hne : ¬ kn.1 = p := by rw [this]; exact hkp
       simp [hne]
 
-/-! ## what `deleteAll` does to links, attributes, keys -/
+/-! ## what `deleteObjs` does to links, attributes, keys -/
 
-/-- **link lists after `deleteAll`**: every group keeps exactly its links to targets that do not
-carry one of the ids, in their old order -/
-theorem deleteAll_links (g : Graph) (ids : List String) (k : Nat) :
-    (g.deleteAll ids).links k = (g.links k).filter (keepLink g ids) := by
+/-- **link lists after `deleteObjs`**: every group keeps exactly its links to targets that
+are none of the objects, in their old order -/
+theorem deleteObjs_links (g : Graph) (ks : List Nat) (k : Nat) :
+    (g.deleteObjs ks).links k = (g.links k).filter (keepLink ks) := by
   unfold Graph.links
-  rw [deleteAll_node?]
+  rw [deleteObjs_node?]
   cases g.node? k <;> rfl
 
-theorem deleteAll_getAttr (g : Graph) (ids : List String) (k : Nat) (a : String) :
-    (g.deleteAll ids).getAttr k a = g.getAttr k a := by
+theorem deleteObjs_getAttr (g : Graph) (ks : List Nat) (k : Nat) (a : String) :
+    (g.deleteObjs ks).getAttr k a = g.getAttr k a := by
   unfold Graph.getAttr
-  rw [deleteAll_node?]
+  rw [deleteObjs_node?]
   cases g.node? k <;> rfl
 
-theorem deleteAll_entityId (g : Graph) (ids : List String) (k : Nat) :
-    (g.deleteAll ids).entityId k = g.entityId k := deleteAll_getAttr g ids k "entity_id"
+theorem deleteObjs_entityId (g : Graph) (ks : List Nat) (k : Nat) :
+    (g.deleteObjs ks).entityId k = g.entityId k := deleteObjs_getAttr g ks k "entity_id"
 
-theorem deleteAll_kind (g : Graph) (ids : List String) (k : Nat) :
-    ((g.deleteAll ids).node? k).map (·.kind) = (g.node? k).map (·.kind) := by
-  rw [deleteAll_node?]
+theorem deleteObjs_kind (g : Graph) (ks : List Nat) (k : Nat) :
+    ((g.deleteObjs ks).node? k).map (·.kind) = (g.node? k).map (·.kind) := by
+  rw [deleteObjs_node?]
   cases g.node? k <;> rfl
 
-theorem deleteAll_attrs (g : Graph) (ids : List String) (k : Nat) :
-    ((g.deleteAll ids).node? k).map (·.attrs) = (g.node? k).map (·.attrs) := by
-  rw [deleteAll_node?]
+theorem deleteObjs_attrs (g : Graph) (ks : List Nat) (k : Nat) :
+    ((g.deleteObjs ks).node? k).map (·.attrs) = (g.node? k).map (·.attrs) := by
+  rw [deleteObjs_node?]
   cases g.node? k <;> rfl
 
-theorem deleteAll_keys (g : Graph) (ids : List String) :
-    (g.deleteAll ids).nodes.map (·.1) = g.nodes.map (·.1) := by
-  rw [deleteAll_eq]
+theorem deleteObjs_keys (g : Graph) (ks : List Nat) :
+    (g.deleteObjs ks).nodes.map (·.1) = g.nodes.map (·.1) := by
+  rw [deleteObjs_eq]
   simp [List.map_map, Function.comp_def]
 
-theorem deleteAll_counters (g : Graph) (ids : List String) :
-    (g.deleteAll ids).nextKey = g.nextKey ∧ (g.deleteAll ids).nextId = g.nextId := ⟨rfl, rfl⟩
+theorem deleteObjs_counters (g : Graph) (ks : List Nat) :
+    (g.deleteObjs ks).nextKey = g.nextKey ∧ (g.deleteObjs ks).nextId = g.nextId := ⟨rfl, rfl⟩
 
-theorem deleteAll_doomed (g : Graph) (ids ids' : List String) (k : Nat) :
-    doomed (g.deleteAll ids) ids' k = doomed g ids' k := by
-  unfold doomed
-  rw [deleteAll_entityId]
-
-theorem deleteAll_kindOf (g : Graph) (ids : List String) (k : Nat) :
-    kindOf (g.deleteAll ids) k = kindOf g k := by
+theorem deleteObjs_kindOf (g : Graph) (ks : List Nat) (k : Nat) :
+    kindOf (g.deleteObjs ks) k = kindOf g k := by
   unfold kindOf
-  rw [deleteAll_getAttr]
+  rw [deleteObjs_getAttr]
 
-theorem mem_deleteAll_links (g : Graph) (ids : List String) (k : Nat) (l : String × Nat) :
-    l ∈ (g.deleteAll ids).links k ↔ l ∈ g.links k ∧ doomed g ids l.2 = false := by
-  rw [deleteAll_links, List.mem_filter]
+theorem mem_deleteObjs_links (g : Graph) (ks : List Nat) (k : Nat) (l : String × Nat) :
+    l ∈ (g.deleteObjs ks).links k ↔ l ∈ g.links k ∧ doomed ks l.2 = false := by
+  rw [deleteObjs_links, List.mem_filter]
   unfold keepLink
   simp
 
-theorem deleteAll_child? (g : Graph) (ids : List String) (k : Nat) (name : String) (t : Nat)
-    (h : (g.deleteAll ids).child? k name = some t) : doomed g ids t = false := by
+theorem deleteObjs_child? (g : Graph) (ks : List Nat) (k : Nat) (name : String) (t : Nat)
+    (h : (g.deleteObjs ks).child? k name = some t) : doomed ks t = false := by
   unfold Graph.child? at h
-  cases hf : ((g.deleteAll ids).links k).find? (fun l => l.1 == name) with
+  cases hf : ((g.deleteObjs ks).links k).find? (fun l => l.1 == name) with
   | none => simp [hf] at h
   | some l =>
     simp only [hf, Option.map_some, Option.some.injEq] at h
     have hm := List.mem_of_find?_eq_some hf
-    have := ((mem_deleteAll_links g ids k l).mp hm).2
+    have := ((mem_deleteObjs_links g ks k l).mp hm).2
     rw [h] at this
     exact this
 
